@@ -69,6 +69,13 @@ def seq_case(draw):
     else:
         base = draw(GS.spec1d_case(layouts=[lay], max_nf=8, allow_zero_f=False, kinds=["random", "nan", "sparse"],
                                    max_len=3, min_len=2, moments="any"))
+    # missing values are what fillna-style side effects would disturb: make them common
+    if draw(st.booleans()):
+        e = list(base["e"])
+        for _ in range(draw(st.integers(1, 3))):
+            e[draw(st.integers(0, len(e) - 1))] = float("nan")
+        base["e"] = e
+        base["values"] = "with_nan"
     seeds = [draw(st.integers(0, 2 ** 31)) for _ in range(2)]
     ops = []
     nops = draw(st.integers(1, 6))
